@@ -471,11 +471,11 @@ fn brief_ev<P: std::fmt::Debug, B: std::fmt::Debug>(e: Option<&Ev<P, B>>) -> Str
         None => "need-more-data".into(),
         Some(Ev::Packet { p, at, .. }) => {
             let s = format!("{p:?}");
-            format!("packet {} consumed-to {at}", &s[..s.len().min(120)])
+            format!("packet {} consumed-to {at}", s.chars().take(120).collect::<String>())
         }
         Some(Ev::Publish { p, at, piece, .. }) => {
             let s = format!("{p:?}");
-            format!("publish {} piece {} consumed-to {at}", &s[..s.len().min(120)], piece.len())
+            format!("publish {} piece {} consumed-to {at}", s.chars().take(120).collect::<String>(), piece.len())
         }
         Some(Ev::Chunk { piece, eof, .. }) => format!("chunk {} eof={eof}", piece.len()),
         Some(Ev::Err { e, .. }) => format!("error {e:?}"),
